@@ -224,6 +224,8 @@ def verus_witness(unit, repo, scratch):
 def find_witness(obl, repo, scratch):
     try:
         if obl.engine == 'verus' and obl.unit:
+            if obl.extra.get('sweep'):
+                return obl.extra['sweep']
             return verus_witness(obl.unit, repo, scratch)
         if obl.engine == 'kani' and obl.fn:
             import nativereplay
